@@ -122,6 +122,28 @@ def run_task(t):
         except (NotImplementedError, ValueError) as ex:
             res['second_error'] = type(ex).__name__
         return res
+    if kind == 'history':
+        # a sequence of queries / repairs on ONE object; every step is recorded
+        fd = build(mesh)
+        steps = []
+        for op in t['ops']:
+            try:
+                if op[0] == 'metric':
+                    v = fd.calculate_element_metrics(raise_negative_metric=op[1], return_abs_metric=op[2])
+                    steps.append({'values': [fhex(x) for x in np.asarray(v)[:, 0]]})
+                elif op[0] == 'volume':
+                    v = fd.calculate_element_volumes(mode=op[1], raise_negative_volume=op[2],
+                                                     return_abs_volume=op[3])
+                    steps.append({'values': [fhex(x) for x in np.asarray(v)[:, 0]]})
+                elif op[0] == 'positive':
+                    fd.make_elements_positive()
+                    steps.append({'done': blocks_of(fd)})
+                else:
+                    raise AssertionError(op)
+            except (ValueError, NotImplementedError) as ex:
+                steps.append({'raise': type(ex).__name__, 'msg': str(ex)[:120]})
+        return {'steps': steps, 'final_blocks': blocks_of(fd),
+                'node_ids_after': [int(i) for i in fd.nodes.ids]}
     raise AssertionError(kind)
 
 
